@@ -618,7 +618,7 @@ func checkMain(propID, build, verif, tier string, seed int64) int {
 		outDir = v // runs against scratch copies keep their evidence and replay files out of /verif
 	}
 	_ = os.MkdirAll(filepath.Join(outDir, "replays"), 0o755)
-	if stale, _ := filepath.Glob(filepath.Join(outDir, "replays", propID+"-*.json")); len(stale) > 0 {
+	if stale, _ := filepath.Glob(filepath.Join(outDir, "replays", propID+"-*.json*")); len(stale) > 0 {
 		for _, f := range stale {
 			_ = os.Remove(f)
 		}
